@@ -40,7 +40,10 @@ class _Raised(Exception):
 
 
 class Interp:
-    def __init__(self, env: dict[str, Any], max_steps: int = 2000):
+    def __init__(self, env: dict[str, Any], max_steps: int = 2000, behaviours: tuple = ()):
+        # exceptions of evaluated expressions that count as behaviour of the extracted code (raised to its handlers)
+        # rather than as a failure of the stand-ins; rules widen the set when the specification speaks about refusals
+        self.behaviours = (IndexError, KeyError, ZeroDivisionError) + tuple(behaviours)
         self.env: dict[str, Any] = {"__builtins__": SAFE, **env}
         self.steps = 0
         self.max_steps = max_steps
@@ -51,7 +54,7 @@ class Interp:
             return eval(compile(ast.Expression(body=e), "<extracted>", "eval"), self.env)  # noqa: S307
         except (_Continue, _Break, _Raised, _Return, AnalysisError):
             raise
-        except (IndexError, KeyError, ZeroDivisionError) as ex:  # a behaviour of the extracted code, not of the stubs
+        except self.behaviours as ex:  # a behaviour of the extracted code, not of the stubs
             raise _Raised(type(ex).__name__)
         except Exception as ex:
             raise AnalysisError(f"tabulation: cannot evaluate {unparse(e)[:80]!r}: {type(ex).__name__}: {ex}")
@@ -67,7 +70,7 @@ class Interp:
             vals.update(dict(zip(params, args)))
             vals.update(kwargs)
             env.update(vals)
-            sub = Interp(env, outer.max_steps)
+            sub = Interp(env, outer.max_steps, outer.behaviours[3:])
             is_gen = any(isinstance(x, (ast.Yield, ast.YieldFrom)) for st in fd.body for x in ast.walk(st))
             try:
                 sub.run(fd.body)
